@@ -2,11 +2,12 @@
 CONSTANTS
   Batches <- UnpicklableBatches
   Observers <- ObsModes
-  M = 2
-  Per = 1
+  M = 4
+  Per = 2
   Faults = {}
   MaxFaults = 0
   Pickle = "ascoded"
+  Variant = "ascoded"
 SPECIFICATION Spec
 INVARIANT TypeOK
 INVARIANT TimeoutAgree
